@@ -167,7 +167,7 @@ func runClScenario(sc ClScenario) clResult {
 	runner, err := httpcluster.NewRunner(
 		httpcluster.WithLogHandler(slog.NewTextHandler(io.Discard, nil)),
 		httpcluster.VerifWithRunnerFactory(factory),
-		httpcluster.VerifWithDeadlineServerStart(40*time.Millisecond),
+		httpcluster.VerifWithDeadlineServerStart(150*time.Millisecond),
 		httpcluster.WithRestartDelay(time.Millisecond))
 	must(err)
 	ctx, cancel := context.WithCancel(context.Background())
@@ -230,7 +230,7 @@ func runClScenario(sc ClScenario) clResult {
 		if cancelled.Load() {
 			break
 		}
-		for i := 0; i < 400 && runner.GetState() == "Reloading"; i++ {
+		for i := 0; i < 6000 && runner.GetState() == "Reloading"; i++ {
 			time.Sleep(500 * time.Microsecond)
 		}
 		time.Sleep(2 * time.Millisecond)
